@@ -6,6 +6,11 @@ from __future__ import annotations
 
 import asyncio
 import heapq
+import threading
+
+
+class Deadlock(RuntimeError):
+    """nothing is ready, no timer is pending and no I/O arrives: the awaited coroutine can never finish"""
 
 
 class VirtualLoop(asyncio.SelectorEventLoop):
@@ -28,6 +33,14 @@ class VirtualLoop(asyncio.SelectorEventLoop):
             when = self._scheduled[0]._when
             if when > self._vtime:
                 self._vtime = when
+        elif not self._ready and not self._scheduled and not self._stopping:
+            # nothing can ever wake the loop except I/O (the self-pipe of call_soon_threadsafe): give a
+            # thread a moment of REAL time, then report the hang instead of blocking in select() forever
+            waited = 0.0
+            while not self._selector.select(0.25):
+                waited += 0.25
+                if threading.active_count() <= 1 or waited >= 30.0:     # worker threads may still answer
+                    raise Deadlock("event loop idle: no ready callback, no timer, no I/O")
         super()._run_once()
 
 
@@ -44,7 +57,10 @@ def run(coro, debug=False):
             for t in pending:
                 t.cancel()
             if pending:
-                loop.run_until_complete(asyncio.gather(*pending, return_exceptions=True))
+                try:
+                    loop.run_until_complete(asyncio.gather(*pending, return_exceptions=True))
+                except Deadlock:
+                    pass
         finally:
             asyncio.set_event_loop(None)
             loop.close()
